@@ -26,7 +26,9 @@ pub struct PlanCase {
 }
 
 fn decode(ctx: &Ctx, tape: &[u32], disk: Option<DiskCfg>) -> PlanCase {
-    let cfg = cfg_for(ctx, true);
+    let mut cfg = cfg_for(ctx, true);
+    // also statements the binder must reject (a column that is neither aggregated nor a group key)
+    cfg.ungrouped_items = true;
     let mut t = Tape::new(tape);
     let db = gen_dbspec(&mut t, &cfg, disk);
     let mut stats = vec![];
